@@ -466,7 +466,29 @@ func AddOptions(r *Reg) []godi.AddOption {
 	for _, a := range r.As {
 		opts = append(opts, AsOption(a))
 	}
+	switch r.BadOpt {
+	case BadOptNil:
+		opts = append(opts, nil)
+	case BadOptAsNonIface:
+		opts = append(opts, godi.As[int]())
+	case BadOptBackquote:
+		opts = append(opts, godi.Name("bad`name"))
+	}
 	return opts
+}
+
+// ModuleOption returns the module-builder form of the registration call.
+func (w *World) ModuleOption(r *Reg) godi.ModuleOption {
+	svc := w.Service(r)
+	opts := AddOptions(r)
+	switch r.Life {
+	case Singleton:
+		return godi.AddSingleton(svc, opts...)
+	case Scoped:
+		return godi.AddScoped(svc, opts...)
+	default:
+		return godi.AddTransient(svc, opts...)
+	}
 }
 
 // Register issues the Add* call for r on c.
